@@ -28,6 +28,7 @@ class Instance:
     def __init__(self, kind, X, labels, D, nu=0, m=0, metric=None):
         self.kind, self.X, self.labels, self.D, self.nu, self.m, self.metric = kind, X, list(labels), D, nu, m, metric
         self.n = len(labels)
+        self.Xarr = None
 
     def key(self):
         return (self.kind, self.metric, tuple(self.labels), tuple(map(tuple, self.D)), self.nu, self.m)
@@ -46,15 +47,31 @@ def gen_labels(rng, n, kmax=4):
             return lab
 
 
-def metric_matrix(metric, X):
+def metric_matrix(metric, X, arr=None):
+    """D[a][b] = metric(row a, row b). With `arr` (a typed / strided numpy array) the very same row views the
+    implementation will see are used, so dtype- or layout-dependent arithmetic is reproduced exactly."""
     import opfython.math.distance as d
     fn = d.DISTANCES[metric]
     N = len(X)
     D = [[0.0] * N for _ in range(N)]
     for a in range(N):
         for b in range(N):
-            D[a][b] = float(fn(np.array(X[a], dtype=float), np.array(X[b], dtype=float)))
+            if arr is None:
+                D[a][b] = float(fn(np.array(X[a], dtype=float), np.array(X[b], dtype=float)))
+            else:
+                D[a][b] = float(fn(arr[a], arr[b]))
     return D
+
+
+def typed_array(rng, X, kind):
+    """kind 'int': int64 rows (X must be integral); 'strided': a non-contiguous float64 view (every other column of a
+    wider buffer, Fortran-ordered base)."""
+    if kind == "int":
+        return np.array(X, dtype=np.int64)
+    base = np.asfortranarray(np.zeros((len(X), 2 * len(X[0]))))
+    base[:, ::2] = np.array(X, dtype=float)
+    base[:, 1::2] = 7.5
+    return base[:, ::2]
 
 
 def gen_features(rng, n, nu, m, metric=None, lattice=False, tie_free=False):
@@ -138,7 +155,18 @@ def gen_instance(rng, nmax=10, nu=0, m=0, tie_free=False, kinds=("feat", "mat", 
     X, D = gen_features(rng, n, nu, m, metric, lattice=(kind == "lattice") and not tie_free, tie_free=tie_free)
     if X is None:
         return gen_instance(rng, nmax, nu, m, tie_free, kinds=("mat",))
-    return Instance(kind if not tie_free else "feat", X, labels, D, nu, m, metric)
+    inst = Instance(kind if not tie_free else "feat", X, labels, D, nu, m, metric)
+    r = rng.random()
+    if r < 0.25 and not tie_free:
+        # the caller's array need not be a C-contiguous float64 array: integer dtype (lattice data) or a strided view
+        tk = "int" if (kind == "lattice" and r < 0.12) else "strided"
+        inst.Xarr = typed_array(rng, X, tk)
+        inst.D = metric_matrix(metric, X, inst.Xarr)
+        inst.kind = inst.kind + "/" + tk
+        if any(v != v for row in inst.D for v in row):
+            inst.Xarr = None
+            inst.D = D
+    return inst
 
 
 # ----------------------------------------------------------------------------------------
@@ -165,7 +193,7 @@ def make_model(inst, cls):
     """Construct the model in the branch matching the instance (metric on features, or pre-computed matrix)."""
     if inst.X is not None:
         opf = cls(distance=inst.metric)
-        X = np.array(inst.X, dtype=float)
+        X = np.array(inst.X, dtype=float) if inst.Xarr is None else inst.Xarr
         return opf, X, None
     opf = cls()
     opf.pre_computed_distance = True
@@ -174,6 +202,11 @@ def make_model(inst, cls):
     N = len(inst.D)
     X = np.zeros((N, 1))
     return opf, X, idx
+
+
+def _rows(inst, X, a, b):
+    """rows a..b-1 as handed to the library: a copy normally, the raw (typed / strided) view for Xarr instances"""
+    return X[a:b] if getattr(inst, "Xarr", None) is not None else X[a:b].copy()
 
 
 def node_state(sg):
@@ -188,7 +221,7 @@ def impl_prim(inst):
     from opfython.core import Subgraph
     opf, X, I = make_model(inst, SupervisedOPF)
     n = inst.n
-    opf.subgraph = Subgraph(X[:n].copy(), np.array(inst.labels), I=None if I is None else I[:n])
+    opf.subgraph = Subgraph(_rows(inst, X, 0, n), np.array(inst.labels), I=None if I is None else I[:n])
     opf._find_prototypes()
     return node_state(opf.subgraph)
 
@@ -210,7 +243,7 @@ def impl_fit(inst, cls=None, reuse=False):
             opf = old
         _REUSE[key] = opf
     n = inst.n
-    opf.fit(X[:n].copy(), np.array(inst.labels), None if I is None else I[:n])
+    opf.fit(_rows(inst, X, 0, n), np.array(inst.labels), None if I is None else I[:n])
     return opf, node_state(opf.subgraph)
 
 
@@ -219,9 +252,9 @@ def impl_semi_fit(inst):
     opf, X, I = make_model(inst, SemiSupervisedOPF)
     n, nu = inst.n, inst.nu
     if I is None:
-        opf.fit(X[:n].copy(), np.array(inst.labels), X[n:n + nu].copy())
+        opf.fit(_rows(inst, X, 0, n), np.array(inst.labels), _rows(inst, X, n, n + nu))
     else:
-        opf.fit(X[:n].copy(), np.array(inst.labels), X[n:n + nu].copy(), I[:n], I[n:n + nu])
+        opf.fit(_rows(inst, X, 0, n), np.array(inst.labels), _rows(inst, X, n, n + nu), I[:n], I[n:n + nu])
     return opf, node_state(opf.subgraph)
 
 
@@ -230,7 +263,7 @@ def impl_predict(opf, inst, rows=None):
     n, nu, m = inst.n, inst.nu, inst.m
     rows = list(range(n + nu, n + nu + m)) if rows is None else rows
     if inst.X is not None:
-        Xq = np.array([inst.X[r] for r in rows], dtype=float)
+        Xq = np.array([inst.X[r] for r in rows], dtype=float) if inst.Xarr is None else inst.Xarr[np.array(rows, dtype=int)]
         preds = opf.predict(Xq)
     else:
         Xq = np.zeros((len(rows), 1))
